@@ -576,6 +576,10 @@ def render_task(prog, nm):
     if t.get('bad') == 'input' and not t.get('workflow'):
         d['action'] = 'std.echo'
         d['input'] = {'output': bad_expr}
+    if t.get('publish-on-skip'):
+        d['publish-on-skip'] = dict(t['publish-on-skip'])
+    if t.get('on-skip'):
+        d['on-skip'] = _render_clause(t['on-skip'], form, lang)
     for c in ('on-success', 'on-error', 'on-complete'):
         tp = (t.get('tpublish') or {}).get(c)
         if t.get(c):
